@@ -9,6 +9,7 @@
 //  peakloc.real                     vertex of the parabola through the three samples around idx (cyclic neighbours)
 //  detector.present / .absent       PreambleDetector against the documented formula evaluated in long double
 //  detector.reset                   histories on one object: traffic, reset(), stream - the stream is handled as by a fresh detector
+//  detector.gap                     traffic, 1 / 2 / 5 frames that are exactly zero in every sample, traffic (preamble absent / before / after the gap)
 //  detector.reject                  a call with a length that is not a multiple of frame_len() throws and leaves the object unchanged
 //
 // Shifts of complex data are made by the harness itself (own zero-fill shift), real shifts are made by the harness as
@@ -527,7 +528,7 @@ static void run_detector(Ctx& ctx, bool T) {
     const std::vector<double> thrs = T ? std::vector<double>{0.3, 0.4, 0.5, 0.6, 0.7, 0.8, 0.9, 0.95} : std::vector<double>{0.3, 0.5, 0.7, 0.9};
     const int NFR = 4;
     for (const Preamble& pr : pre) {
-        if (!ctx.wants("detector.present") && !ctx.wants("detector.absent") && !ctx.wants("detector.reset") && !ctx.wants("detector.reject") && !ctx.wants("detector.big")) break;
+        if (!ctx.wants("detector.present") && !ctx.wants("detector.absent") && !ctx.wants("detector.reset") && !ctx.wants("detector.reject") && !ctx.wants("detector.big") && !ctx.wants("detector.gap")) break;
         const int nh = pr.h.size();
         int fl = 0;
         double rms_h = 0;
@@ -659,6 +660,7 @@ static void run_detector(Ctx& ctx, bool T) {
                         if (off == 0) ctx.note("detector preamble ends on first sample of a frame");
                         if (off == fl - 1) ctx.note("detector preamble ends on last sample of a frame");
                         if (start % fl == 0) ctx.note("detector preamble starts on first sample of a frame");
+                        if (!embed) ctx.note("detector silence stream: every frame without preamble samples is exactly zero");
                         for (double thr : thrs)
                             for (int fpc : {1, 2}) run_one(s, R, thr, fpc, e, "PreambleDetector.process");
                         GUARD_END("PreambleDetector.process")
@@ -790,6 +792,52 @@ static void run_detector(Ctx& ctx, bool T) {
                                     }
                                 GUARD_END("PreambleDetector.process.after_reject")
                             }
+                        }
+                    }
+                }
+            }
+        }
+        // ---- all-zero frames inside the traffic: [2 frames of traffic] [g frames that are EXACTLY zero in every sample] [2 frames of
+        // traffic]; traffic = noise 40 dB (variant 0) or 20 dB (variant 1) below the preamble power.  The preamble is a = absent,
+        // b1 / b2 = ending on the last sample / in the middle of the last frame before the gap, c = starting on the first sample
+        // after the gap.  Oracle as for detector.present / detector.absent (documented statistic over the whole stream).
+        {
+            const char* KN[4] = {"a", "b1", "b2", "c"};
+            for (int kind = 0; kind < 4; ++kind) {
+                for (int g : {1, 2, 5}) {
+                    for (int variant = 0; variant < 2; ++variant) {
+                        for (double A : amps) {
+                            if (!ctx.take("detector.gap", P().kv("preamble", pr.name).kv("kind", KN[kind]).kv("gap", g).kv("noise", variant ? "-20dB" : "-40dB").kv("amp", A))) continue;
+                            GUARD_BEGIN
+                            const int NS = (4 + g) * fl;
+                            int e = -1;
+                            if (kind == 1) e = 2 * fl - 1;
+                            if (kind == 2) e = fl + fl / 2;
+                            if (kind == 3) e = (2 + g) * fl + nh - 1;
+                            const int start = e >= 0 ? e - nh + 1 : -1;
+                            arr_cmplx s(NS);
+                            const double gn = (variant ? 0.1 : 0.01) * A * (double)rms_true / std::sqrt(2.0);
+                            int zero_frames = 0;
+                            for (int k = 0; k < NS; ++k) {
+                                const int fr = k / fl;
+                                if (fr >= 2 && fr < 2 + g) {
+                                    s[k] = cmplx_t{0.0, 0.0};
+                                    continue;
+                                }
+                                double re = gn * lcg_gauss(166, (uint64_t)k), im = gn * lcg_gauss(167, (uint64_t)k);
+                                if (start >= 0 && k >= start && k < start + nh) {
+                                    re += A * pr.h[k - start].re;
+                                    im += A * pr.h[k - start].im;
+                                }
+                                s[k] = cmplx_t{re, im};
+                            }
+                            zero_frames = g;
+                            DetRef R = det_reference(pr.h, s, rms_h);
+                            ctx.nontrivial();
+                            ctx.note(fmt("detector stream with %d all-zero frame(s) between traffic, preamble %s", zero_frames, KN[kind]));
+                            for (double thr : thrs)
+                                for (int fpc : {1, 2}) run_one(s, R, thr, fpc, e, "PreambleDetector.process");
+                            GUARD_END("PreambleDetector.process")
                         }
                     }
                 }
